@@ -27,6 +27,8 @@ from .common import (HPO, THEORY, exported_classes, init_of, init_params,
                      param_defaults, final_self, code_varnames,
                      self_attr_stores, const_keys, const_list)
 
+MUTATION_TARGETS = {'holopy/core/holopy_object.py': ['_iteritems', 'to_yaml', 'from_yaml'], 'holopy/core/io/serialize.py': ['complex_representer', 'complex_constructor', 'ndarray_representer', 'tuple_representer', 'numpy_float_representer'], 'holopy/inference/model.py': ['_iteritems', 'from_yaml'], 'holopy/inference/nmpfit.py': ['__init__'], 'holopy/scattering/theory/mielens.py': ['__init__'], 'holopy/scattering/scatterer/sphere.py': ['__init__']}
+
 LEVEL = 'other'
 META = dict(
     claimed=True,
